@@ -121,8 +121,7 @@ def run_index(gaf_path, gfa_path, out_path=None):
 
     if out_path is None:
         out_path = gaf_path + ".gvi"
-    if os.path.exists(out_path):
-        os.remove(out_path)
+    # an index left at this path by an earlier call stays there: re-indexing a changed file is ordinary use
     out = fw.guarded(index.run, gaf_path=gaf_path, gfa_path=gfa_path, output=out_path)
     ind = None
     if out.kind == "ok" and os.path.exists(out_path):
